@@ -16,6 +16,7 @@ import (
 	sentinel "github.com/alibaba/sentinel-golang/api"
 	"github.com/alibaba/sentinel-golang/core/base"
 	cb "github.com/alibaba/sentinel-golang/core/circuitbreaker"
+	"github.com/alibaba/sentinel-golang/core/config"
 	"github.com/alibaba/sentinel-golang/core/flow"
 	"github.com/alibaba/sentinel-golang/core/hotspot"
 	"github.com/alibaba/sentinel-golang/core/isolation"
@@ -220,6 +221,18 @@ func TestRaceAndAtomicSwitch(t *testing.T) {
 		cb.ClearRules()
 		system.ClearRules()
 		stat.ResetResourceNodeMap()
+		// half of the cases run under a legal non-default process-wide statistic configuration (set before any traffic, as an
+		// application does at start-up; the nodes created by this case's traffic have that geometry)
+		sc := hx.DefaultStat
+		if k := rapid.IntRange(0, 2*len(hx.StatCfgs)).Draw(t, "statConfig"); k < len(hx.StatCfgs) {
+			sc = hx.StatCfgs[k]
+		}
+		ent := config.NewDefaultConfig()
+		ent.Sentinel.Stat.MetricStatisticSampleCount, ent.Sentinel.Stat.MetricStatisticIntervalMs = sc.MS, sc.MI
+		ent.Sentinel.Stat.GlobalStatisticSampleCountTotal, ent.Sentinel.Stat.GlobalStatisticIntervalMsTotal = sc.GS, sc.GI
+		config.ResetGlobalConfig(ent)
+		defer config.ResetGlobalConfig(config.NewDefaultConfig())
+		c.ClassIf(sc != hx.DefaultStat, "non-default-statistic-configuration")
 		sws := switchers()
 		sw := sws[rapid.IntRange(0, len(sws)-1).Draw(t, "switchModule")]
 		if err := sw.loadAll("1", 2); err != nil {
@@ -506,7 +519,11 @@ func TestRaceAndAtomicSwitch(t *testing.T) {
 					e.Exit()
 				}
 			}
-			if el := time.Since(t0); el < 400*time.Millisecond && admitted > 2 {
+			sameWindow := true // a single-sample default metric tumbles: the requests must then lie in one aligned window
+			if sc.MS == 1 {
+				sameWindow = uint64(t0.UnixMilli())/uint64(sc.MI) == uint64(time.Now().UnixMilli())/uint64(sc.MI)
+			}
+			if el := time.Since(t0); el < 400*time.Millisecond && sameWindow && admitted > 2 {
 				t.Fatalf("new resource %s: its first rule load (2 per second) raced with its first %d request(s); after all of them returned, %d of 6 requests made within %v were admitted: they were decided without the statistics the loaded rule reads", res, k-1, admitted, el)
 			}
 			if n := stat.GetResourceNode(res); n == nil || n.CurrentConcurrency() != 0 {
